@@ -9,7 +9,12 @@ Streams
            after every operation, helper-side state ids, requests served.
   oracle   the property itself per case: at most one failing query per helper death, the failure is
            InternalError, no hang, later Scripts answer like the undisturbed run, dead helpers reaped
-           (no zombie after the failing query, none at the end), no leaked fds.
+           (no zombie after the failing query, none at the end), no leaked pipes: a census of the
+           parent's open pipe descriptors (/proc/self/fd -> 'pipe:[inode]') is taken right after every
+           query; a helper whose finalizer (_cleanup_process) has run must hold none of the three pipes
+           it was started with while jedi still references its CompiledSubprocess; and no fds at the end.
+           Deaths come from the wrapper's fault plans and from the harness itself (SIGKILL between two
+           queries + waitid(WNOWAIT): a deterministic "dead before the request is written").
   churn    many Scripts created and dropped on one helper: helper-side live states subset of live Scripts.
 """
 import gc
@@ -32,12 +37,19 @@ MANIFEST = dict(
          'marks the helper crashed and reaps it, and the next operation starts a new helper '
          '(crash_one_failure, stated for every plan whose pickle exceptions are in the except clauses read from '
          'the source; kernel-checked counter-witness for a truncated reply = F13); deletion-queue invariant; no '
-         'deletion after a crash; _cleanup_process runs exactly once per started helper. Tie: translator (except '
-         'clauses, _kill, __del__ guard, replacement test) + trace correspondence through a fault-injecting '
-         'stand-in for the environment executable.',
+         'deletion after a crash; _cleanup_process runs exactly once per started helper; its close loop releases '
+         'all three pipes for every subset of streams whose close() raises an OSError (cleanup_closes_all_streams, '
+         'over the loop shape / stream list / except clause read from the source), hence a crashed or finalized '
+         'helper holds no descriptor at any point of any trace (no_leaked_pipes); kernel-checked counter-witness '
+         'for the shape with one try/except around the whole loop. Tie: translator (except clauses, _kill, '
+         '__del__ guard, replacement test, close-loop shape) + trace correspondence (incl. open pipe count per '
+         'helper after every operation) through a fault-injecting stand-in for the environment executable and '
+         'SIGKILLs from the harness.',
     note='Modelled not verified: pipes, pickle framing (which exception a truncated stream raises is measured '
-         'per case), process reaping, weakref.finalize once-only semantics, GC timing. No-hang, zombie and fd '
-         'claims are observed by the oracle, not proved.',
+         'per case), process reaping, weakref.finalize once-only semantics, GC timing, that close() releases the '
+         'descriptor also when it raises, that a request which failed with EPIPE stays buffered (requests < 8 KiB). '
+         'No-hang, zombie and fd claims are observed by the oracle (pipe census via /proc/self/fd after every '
+         'query), not proved.',
     technique='Lean 4 proof over hand-written model + translator-generated constants + differential '
               'correspondence under fault injection',
     design='5.C14')
@@ -95,6 +107,7 @@ class Rec:
         self.ops = []          # {'op','s','out','snap'}
         self.procs = []        # CompiledSubprocess objects, creation order
         self.popens = []       # Popen objects, start order
+        self.pipes = []        # per Popen: {'stdin'|'stdout'|'stderr': 'pipe:[inode]'} at start
         self.cleanups = {}     # pid -> count
         self.ids = []          # python ids of InferenceStateSubprocess objects, first-seen order
         self.live = {}         # python id -> weakref of the InferenceStateSubprocess objects
@@ -120,13 +133,18 @@ class Rec:
 
     def snap(self):
         out = []
+        table = None
         for i, ref in enumerate(self.procs):
             p = ref()
             po = self.popens[i] if i < len(self.popens) else None
             if p is None:
                 out.append({'idx': i, 'gone': True})
                 continue
+            mine = set(self.pipes[i].values()) if i < len(self.pipes) else set()
+            if table is None and mine:
+                table = pipe_table()
             out.append({'idx': i, 'crashed': bool(p.is_crashed), 'started': po is not None,
+                        'fds': sum(1 for t in table.values() if t in mine) if mine else 0,
                         'reaped': po is not None and po.returncode is not None,
                         'cleanups': self.cleanups.get(po.pid, 0) if po is not None else 0,
                         'queue': [self.serial(x) for x in p._inference_state_deletion_queue]})
@@ -158,6 +176,7 @@ class Rec:
             p = orig_popen(*a, **k)
             if cls.cur is not None:
                 cls.cur.popens.append(p)
+                cls.cur.pipes.append({n: pipe_of(getattr(p, n)) for n in ('stdin', 'stdout', 'stderr')})
             return p
         jsub._GeneralizedPopen = popen
 
@@ -277,6 +296,77 @@ def nfds():
     return len(os.listdir('/proc/self/fd'))
 
 
+def pipe_table():
+    """fd -> 'pipe:[inode]' for every pipe end this process has open"""
+    out = {}
+    for name in os.listdir('/proc/self/fd'):
+        try:
+            target = os.readlink('/proc/self/fd/' + name)
+        except OSError:
+            continue
+        if target.startswith('pipe:'):
+            out[int(name)] = target
+    return out
+
+
+def pipe_of(f):
+    try:
+        return os.readlink('/proc/self/fd/%d' % f.fileno())
+    except (OSError, ValueError, AttributeError):
+        return None
+
+
+def proc_state(pid):
+    try:
+        with open('/proc/%d/stat' % pid) as f:
+            st = f.read()
+    except OSError:
+        return None
+    return st[st.rfind(')') + 2:].split()[0]
+
+
+def requests_read(events, pid):
+    """how many requests helper `pid` has read so far, from the wrapper log"""
+    evs = [e for e in events if e.get('pid') == pid]
+    return sum(1 for e in evs if e.get('ev') == 'req') + \
+        sum(1 for e in evs if e.get('ev') == 'fault' and not e.get('by')
+            and e['phase'] in ('after_send', 'raises', 'raises_fatal'))
+
+
+def harness_kill(rec):
+    """SIGKILL the live helper between two queries and wait until it is dead WITHOUT reaping it
+    (that is jedi's job).  The next request written to it fails deterministically with EPIPE and stays
+    in the buffer of the stdin object.  Returns the fault event or None when there is no live helper."""
+    rec.read_log()
+    for i in range(len(rec.popens) - 1, -1, -1):
+        po = rec.popens[i]
+        if po.returncode is None and rec.cleanups.get(po.pid, 0) == 0:
+            if proc_state(po.pid) in (None, 'Z'):
+                return None          # died already (a wrapper fault that nobody has noticed yet)
+            k = requests_read(rec.events, po.pid)
+            os.kill(po.pid, signal.SIGKILL)
+            os.waitid(os.P_PID, po.pid, os.WEXITED | os.WNOWAIT)
+            return {'ev': 'fault', 'phase': 'before_send', 'k': k, 'pid': po.pid, 'by': 'harness'}
+    return None
+
+
+def dead_pipes(rec):
+    """for every helper whose finalizer has run and whose CompiledSubprocess jedi still references:
+    the descriptors of this process that are still connected to one of its three pipes"""
+    table = None
+    out = []
+    for i, po in enumerate(rec.popens):
+        if rec.cleanups.get(po.pid, 0) < 1 or i >= len(rec.procs) or rec.procs[i]() is None:
+            continue
+        if table is None:
+            table = pipe_table()
+        mine = {t: n for n, t in rec.pipes[i].items() if t}
+        left = sorted([fd, t, mine[t]] for fd, t in table.items() if t in mine)
+        if left:
+            out.append({'helper': i, 'open': left})
+    return out
+
+
 def canon(method, res):
     out = []
     for x in res:
@@ -289,17 +379,21 @@ def canon(method, res):
     return sorted(out, key=repr)
 
 
-def do_query(env, qi, path=None):
+HANG_AFTER = 30      # seconds; a case that hit it is re-run alone with RETRY_HANG_AFTER before it is judged
+RETRY_HANG_AFTER = 180
+
+
+def do_query(env, qi, path=None, timeout=HANG_AFTER):
     import jedi
     method, src = SCEN[qi]
     signal.signal(signal.SIGALRM, _alarm)
-    signal.alarm(30)
+    signal.alarm(timeout)
     try:
         s = jedi.Script(src, environment=env, path=path)
         res = canon(method, getattr(s, method)())
         return {'ok': True, 'answer': res}
     except Hang:
-        return {'ok': False, 'cls': 'HANG', 'msg': 'query did not return within 30 s'}
+        return {'ok': False, 'cls': 'HANG', 'msg': 'query did not return within %d s' % timeout}
     except BaseException as e:
         return {'ok': False, 'cls': type(e).__name__, 'msg': str(e)[:400] + ' ... ' + str(e)[-600:] if len(str(e)) > 1000 else str(e)}
     finally:
@@ -334,10 +428,18 @@ def run_case(case):
         except BaseException as e:
             res['env_error'] = [type(e).__name__, str(e)[:300]]
         if env is not None:
-            for qi in case['queries']:
+            for qn, qi in enumerate(case['queries']):
                 n_ops = len(rec.ops)
                 n_ev = len(rec.events)
-                q = do_query(env, qi)
+                if qn in case.get('kills', ()):
+                    ev = harness_kill(rec)
+                    n_ev = len(rec.events)
+                    if ev is not None:
+                        rec.events.append(ev)
+                q = do_query(env, qi, timeout=case.get('timeout', HANG_AFTER))
+                # census before anything is collected: the crashed CompiledSubprocess is still
+                # Environment._subprocess here
+                q['dead_pipes'] = dead_pipes(rec)
                 gc.collect()
                 time.sleep(0.002)
                 rec.read_log()
@@ -367,6 +469,8 @@ def run_case(case):
         rec.popens = []
         gc.collect()
         time.sleep(0.01)
+        table = pipe_table()
+        res['final']['fds'] = [sum(1 for t in table.values() if t in set(m.values())) for m in rec.pipes]
         res['zombies_end'] = len([z for z in zombies() if z not in kids0])
         res['children_end'] = len([c for c in children() if c not in kids0])
         res['fds'] = [fd0, nfds()]
@@ -429,7 +533,7 @@ def compare_case(ctx, case, res, ans):
         for a, b in zip(o['snap'], mp):
             if a.get('gone'):
                 continue
-            for key in ('crashed', 'started', 'reaped', 'cleanups', 'queue'):
+            for key in ('crashed', 'started', 'reaped', 'cleanups', 'queue', 'fds'):
                 if a[key] != b[key]:
                     diffs.append('op %d %s: proc %d %s impl=%r model=%r'
                                  % (i, o['op'], a['idx'], key, a[key], b[key]))
@@ -440,8 +544,7 @@ def compare_case(ctx, case, res, ans):
         last = ans[len(ops) - 1]['env']['procs']
         for h, pid in enumerate(pids):
             evs = [e for e in res['events'] if e.get('pid') == pid]
-            nreq = sum(1 for e in evs if e.get('ev') == 'req') + \
-                sum(1 for e in evs if e.get('ev') == 'fault' and e['phase'] in ('after_send', 'raises', 'raises_fatal'))
+            nreq = requests_read(evs, pid)
             if h < len(last) and last[h]['nreq'] != nreq:
                 diffs.append('helper %d: requests read impl=%d model=%d' % (h, nreq, last[h]['nreq']))
             if h < len(last) and last[h]['alive']:
@@ -455,10 +558,11 @@ def compare_case(ctx, case, res, ans):
         fin = ans[len(ops)]['env']['procs']
         for h in range(len(pids)):
             if h < len(fin) and (fin[h]['cleanups'] != res['final']['cleanups'][h]
-                                 or fin[h]['reaped'] != res['final']['reaped'][h]):
-                diffs.append('helper %d after GC: cleanups/reaped impl=%r/%r model=%r/%r'
+                                 or fin[h]['reaped'] != res['final']['reaped'][h]
+                                 or fin[h]['fds'] != res['final']['fds'][h]):
+                diffs.append('helper %d after GC: cleanups/reaped/fds impl=%r/%r/%r model=%r/%r/%r'
                              % (h, res['final']['cleanups'][h], res['final']['reaped'][h],
-                                fin[h]['cleanups'], fin[h]['reaped']))
+                                res['final']['fds'][h], fin[h]['cleanups'], fin[h]['reaped'], fin[h]['fds']))
     return diffs
 
 
@@ -478,8 +582,10 @@ def culprit_of(q, prev_faults):
 def oracle_case(ctx, case, res, expected):
     how = ('Environment(harness/helper_wrapper/python, env_vars={DAVIDHALTER_JEDI_VERIF:1, JEDI_VERIF_PLAN:'
            '<file with {"starts": plan}>}); run the listed queries as jedi.Script(src, environment=env).<method>(); '
+           'before query i for i in `kills`: os.kill(<helper pid>, SIGKILL); os.waitid(P_PID, pid, WEXITED|WNOWAIT); '
            './check C14 --replay <this file>')
-    base = {'queries': [list(SCEN[q]) for q in case['queries']], 'starts': case['starts']}
+    base = {'queries': [list(SCEN[q]) for q in case['queries']], 'starts': case['starts'],
+            'kills': list(case.get('kills', []))}
     if res['env_error'] is not None:
         # the very first helper start failing is an unusable environment, not a crash of a working helper
         ctx.count('oracle', ('env', json.dumps(case['starts'])), nontrivial=False, bucket='first-start-fails')
@@ -500,6 +606,14 @@ def oracle_case(ctx, case, res, expected):
         seen_faults += q['faults']
         case_d = dict(base, query_index=qn, culprit=cul, phase=phase)
         qi = case['queries'][qn]
+        if q.get('dead_pipes'):
+            ctx.fail('oracle', 'pipes to a dead helper are still open in the parent after its finalizer '
+                               '(_cleanup_process) ran: leaked descriptors',
+                     dict(case_d, symptom='pipes'),
+                     expected='0 open descriptors per dead helper',
+                     observed={'leaked': sum(len(d['open']) for d in q['dead_pipes']),
+                               'dead_helpers': q['dead_pipes'],
+                               'outcome': 'ok' if q['ok'] else q['cls']}, how=how)
         if q['ok']:
             if q['answer'] != expected[qi]:
                 ctx.fail('oracle', 'a Script after a helper crash answers differently from the undisturbed run',
@@ -536,8 +650,12 @@ def oracle_case(ctx, case, res, expected):
                  observed={'before': res['fds'][0], 'after': res['fds'][1]}, how=how)
     bucket = '+'.join(sorted(f['phase'] + ('@0' if f['k'] == 0 else '')
                              for q in res['queries'] for f in q['faults'])) or 'no-fault-hit'
-    ctx.count('oracle', json.dumps([case['queries'], case['starts']]), nontrivial=deaths + raises > 0,
+    if case.get('kills'):
+        bucket += '/sigkill=%d' % sum(1 for q in res['queries'] for f in q['faults'] if f.get('by'))
+    ctx.count('oracle', json.dumps([case['queries'], case['starts'], case.get('kills', [])]),
+              nontrivial=deaths + raises > 0,
               bucket=bucket, sample={'queries': base['queries'], 'starts': case['starts'],
+                                     'kills': base['kills'],
                                      'outcomes': [q['answer'] if q['ok'] else q['cls'] for q in res['queries']]})
 
 
@@ -586,6 +704,23 @@ def gen_cases(ctx, nreqs):
     cases.append({'id': 'three', 'queries': [0, 1, 2, 3, 4],
                   'starts': [{'k': 4, 'phase': 'after_send'}, {'k': 2, 'phase': 'before_send'},
                              {'k': 3, 'phase': 'raises_fatal'}]})
+    # "dead before the request is written", deterministic: the harness SIGKILLs the helper between two
+    # queries (three consecutive crashes; the very first query; mixed with wrapper faults)
+    cases.append({'id': 'kill3', 'queries': [0, 1, 2, 3, 4], 'starts': [], 'kills': [1, 2, 3]})
+    cases.append({'id': 'kill-first', 'queries': [3, 0, 5], 'starts': [], 'kills': [0]})
+    cases.append({'id': 'kill-mixed', 'queries': [0, 5, 1, 6, 0],
+                  'starts': [{'k': 3, 'phase': 'after_send'}, None, {'k': 2, 'phase': 'trunc', 'n': 4}],
+                  'kills': [2, 4]})
+    for i in range(ctx.size(3, 40)):
+        nq = rng.randint(3, 6)
+        qs = [rng.choice(allq) for _ in range(nq)]
+        kills = sorted(rng.sample(range(nq), rng.randint(1, min(3, nq))))
+        starts = []
+        for _ in range(rng.choice([0, 0, 1, 2])):
+            ph2 = rng.choice(PHASES)
+            starts.append({'k': rng.randint(1 if ph2 == 'before_send' else 0, 8), 'phase': ph2,
+                           'n': rng.choice([1, 2, 4, 11, 30])})
+        cases.append({'id': 'k%d' % i, 'queries': qs, 'starts': starts, 'kills': kills})
     return cases
 
 
@@ -736,6 +871,13 @@ def run(ctx):
     with pool_ctx.Pool(1) as p1:
         churn_async = p1.apply_async(_churn_worker, ((ctx.size(40, 200), ctx.seed),))
         results = run_cases(cases, jobs=ctx.size(12, 16))
+        # "no query hangs" is judged on an otherwise idle harness: a case that ran into the alarm while
+        # 12 workers (and whatever else the machine is doing) compete for the CPUs is run again, alone
+        for i, (c, r) in enumerate(zip(cases, results)):
+            if 'infra' not in r and any(q.get('cls') == 'HANG' for q in r['queries']):
+                ctx.notes.append('case %s hit the %d s alarm in the parallel run; re-run alone with %d s'
+                                 % (c['id'], HANG_AFTER, RETRY_HANG_AFTER))
+                results[i] = run_cases([dict(c, timeout=RETRY_HANG_AFTER)], 1)[0]
         churn = churn_async.get(timeout=600)
     ctx.notes.append('C14: %d cases on the real code in %.1f s' % (len(cases), time.time() - t0))
     reqs = []
@@ -767,7 +909,7 @@ def run(ctx):
                 raise common.InfraError('driver error: %r' % ans)
             diffs = compare_case(ctx, c, r, ans)
             hit = sorted({f['phase'] for q in r['queries'] for f in q['faults']})
-            ctx.count('corr', json.dumps([c['queries'], c['starts']]), nontrivial=bool(hit),
+            ctx.count('corr', json.dumps([c['queries'], c['starts'], c.get('kills', [])]), nontrivial=bool(hit),
                       bucket='ops=%d0s/faults=%s' % (len(r['ops']) // 10, ','.join(hit) or '-'),
                       sample={'starts': c['starts'], 'n_ops': len(r['ops']),
                               'outcomes': [o['out'] for o in r['ops'] if o['out'] != 'ok']})
@@ -791,7 +933,12 @@ def run(ctx):
         'the channel is a parameter: which fault hits which request is taken from the wrapper log, which '
         'exception class the Unpickler raises on a truncated reply is measured per case in the harness process',
         'weakref.finalize runs its callback at most once (CPython); GC happens where the harness calls gc.collect()',
-        'no-hang, zombie and fd statements are observed (30 s alarm, /proc), not proved',
+        'no-hang, zombie and fd statements are observed (30 s alarm, re-run alone with 180 s before a hang is '
+        'reported; /proc child table; /proc/self/fd pipe census after every query), not proved',
+        'a stream.close() that raises still releases its descriptor (CPython buffered close); a request whose '
+        'write failed with EPIPE stays in the BufferedWriter of stdin, so stdin.close() raises BrokenPipeError '
+        '(requests are smaller than the 8 KiB buffer); stdout/stderr close() never raise in the executable '
+        'model (the theorem cleanup_closes_all_streams covers every subset)',
         'a helper that dies while the environment is created for the first time is an invalid environment, '
         'not a crash of a working helper (counted, not judged)',
     ]
@@ -802,11 +949,12 @@ def replay(ctx, payload):
     qs = []
     for m, src in inp['queries']:
         qs.append(SCEN.index((m, src)) if (m, src) in SCEN else 0)
-    case = {'id': 'replay', 'queries': qs, 'starts': inp['starts']}
+    case = {'id': 'replay', 'queries': qs, 'starts': inp['starts'], 'kills': inp.get('kills', [])}
     res = run_cases([case], 1)[0]
     for q, qi in zip(res.get('queries', []), qs):
         print(SCEN[qi], '->', q['answer'] if q['ok'] else 'EXC %s: %s' % (q['cls'], q['msg'][:160]),
-              'faults:', [(f['phase'], f['k']) for f in q['faults']])
+              'faults:', [(f['phase'], f['k'], f.get('by', 'wrapper')) for f in q['faults']],
+              'pipes of dead helpers still open:', q.get('dead_pipes'))
     print('zombies at end:', res.get('zombies_end'), 'fds before/after:', res.get('fds'))
     print('expected:', payload.get('expected'), 'observed at record time:', short(payload.get('observed')))
     return 0
